@@ -27,6 +27,9 @@ Inductive case :=
 | CaseEdnsBadvers (b : bargs) (remote : ipb) (extra : list rr) (counts : list N)
   (* edns ResponseWriter.WriteMsg: subnet options per OPT record of the reply the transport got *)
 | CaseEdnsReply (noedns trunc : bool) (resp : list (list eopt)) (counts : list N)
+  (* edns ResponseWriter.WriteWire (byte path): option codes of the OPT record appended to the reply
+     (None: no OPT record) *)
+| CaseEdnsWire (noedns cookie nsid keepalive ede : bool) (codes : option (list N))
   (* a history of client queries through edns + cache against scripted upstream answers *)
 | CaseCache (c : ccfg) (ops : list (cop * obs))
   (* a request tree against seeded shared denial state.  Per node, pre-order: which of the three
@@ -110,6 +113,8 @@ Definition check_case (c : case) : bool :=
       opt_eqb (list_eqb rr_eqb) r res
   | CaseEdnsReply noedns trunc resp counts => list_eqb N.eqb (reply_ecs_counts noedns trunc resp) counts
   | CaseEdnsBadvers b remote extra counts => list_eqb N.eqb (badvers_reply_counts b remote extra) counts
+  | CaseEdnsWire noedns cookie nsid keepalive ede codes =>
+      opt_eqb (list_eqb N.eqb) (wire_reply_codes noedns cookie nsid keepalive ede) codes
   | CaseCache c ops => check_ops c [] ops
   | CaseDenial b t seen =>
       perms_match (tree_perms (policy_of b) (mk_dctx false false) t) seen
@@ -328,9 +333,11 @@ Definition spec_case (c : case) : bool :=
           match opts with
           | Some l => match first_ecs l with
                       | Some sub =>
-                          negb (e_scope sub =? 0) && (p_bits px =? e_scope sub) &&
+                          negb (e_scope sub =? 0) &&
                           match width_of_family (e_family sub), ip_to_addr (e_addr sub) with
                           | Some (is4, w), Some a =>
+                              (* a SCOPE beyond the width can only mean the whole address *)
+                              (p_bits px =? N.min (e_scope sub) w) &&
                               Bool.eqb is4 (a_is4 a) && Bool.eqb (p_is4 px) is4 && (p_bits px <=? w) &&
                               (p_val px mod 2 ^ (w - p_bits px) =? 0) &&
                               (p_val px / 2 ^ (w - p_bits px) =? a_val a / 2 ^ (w - p_bits px))
@@ -366,6 +373,9 @@ Definition spec_case (c : case) : bool :=
       end
   | CaseEdnsReply noedns trunc resp counts => forallb (fun n => n =? 0) counts && (length counts <=? 1)%nat
   | CaseEdnsBadvers b remote extra counts => forallb (fun n => n =? 0) counts && (length counts <=? 1)%nat
+  | CaseEdnsWire noedns cookie nsid keepalive ede codes =>
+      (* no subnet option (code 8), and no OPT at all for a client that sent none *)
+      match codes with Some l => negb noedns && forallb (fun x => negb (x =? 8)) l | None => true end
   | CaseCache c ops => spec_ops c [] ops
   | CaseDenial b t seen => negb (root_isolated t) || forallb (fun s => negb (snd s)) seen
   end.
